@@ -466,3 +466,298 @@ def gsystem(can):
                for v, lb, ub in can["vars"]])
     C = glist([f"(mkCon {gexpr(l)} {rel} {gexpr(r)})" for rel, l, r in can["cons"]])
     return V, C
+
+
+# ======================================================================================
+# kind "system": optimize_allocation is run up to the solver call; the captured system must equal gen_system
+# ======================================================================================
+SYS_HEADER_IMPORTS = "Glb.System Cases.CmpC10Sys"
+CLOSE_K = 256            # roundings (2^-53 each) allowed on a coefficient, relative to the magnitude of the equation
+
+NAME_SCHEMES = [
+    # (movable hard, soft, fixed) name pools; every name is a valid identifier
+    (["H0", "H1", "H2"], ["S0", "S1", "S2", "S3"], ["F0", "F1", "F2"]),
+    (["H1", "H10", "H1_"], ["H1_io", "H1_x", "H10_", "H1__0"], ["H1_f", "F", "_"]),
+    (["H1", "M", "a_b"], ["H1_7", "H1_00", "M_", "a_b_c"], ["M_fixed", "a", "a_"]),
+    (["x", "a", "d"], ["x_a", "a_x_0_", "y", "v1"], ["sum_1", "d_x", "a_a_0"]),
+    (["A", "B", "C"], ["A0", "A_b", "Ab", "A_"], ["B_", "B__", "C_x"]),
+]
+
+
+def rename_case(case, ren):
+    for m in case["mods"]:
+        m["name"] = ren[m["name"]]
+    for c in case["cells"]:
+        c["alloc"] = [[ren[k], q] for k, q in c["alloc"]]
+    return case
+
+
+def has_clash(case):
+    """A netlist module bears the internal name f'{m}_{r}' of a rectangle of a movable hard module."""
+    if case.get("kind") == "run":
+        mods = case["netlist"]["Modules"]
+        if not isinstance(mods, dict):
+            return False
+        names = set(mods)
+        for n, d in mods.items():
+            if isinstance(d, dict) and d.get("hard") and not d.get("fixed"):
+                if any(f"{n}_{r}" in names for r in range(len(d.get("rectangles", [])))):
+                    return True
+        return False
+    if case.get("kind") != "system":
+        return False
+    names = {m["name"] for m in case["mods"]}
+    return any(f"{m['name']}_{r}" in names for m in case["mods"] if m["hard"] and not m["fixed"]
+               for r in range(len(m["rects"])))
+
+
+def gen_system_case(rng):
+    from harness.props import c10
+    style = rng.choice(["fix", "fix", "fix", "ties", "ties", "crowd"])
+    if style == "fix":
+        case = c10.gen_fixrule(rng)
+    elif style == "ties":
+        case = gen_ties(rng)
+    else:
+        case = gen_crowd(rng)
+    case["kind"] = "system"
+    case["sub"] = style + "/" + str(case.get("style", ""))
+    mods = case["mods"]
+    # ---- names (prefix relations, names equal to generated variable / internal names)
+    scheme = rng.choice([0, 0, 1, 1, 2, 3, 4])
+    pools = [list(p) for p in NAME_SCHEMES[scheme]]
+    for p in pools:
+        rng.shuffle(p)
+    ren = {}
+    for m in mods:
+        pool = pools[2] if m["fixed"] else (pools[0] if m["hard"] else pools[1])
+        ren[m["name"]] = pool.pop() if pool else f"Z{len(ren)}"
+    hard_movable = [m for m in mods if m["hard"] and not m["fixed"]]
+    if hard_movable and rng.random() < 0.12:
+        # the internal name of a rectangle of a movable hard module, given to another module of the netlist
+        h = rng.choice(hard_movable)
+        others = [m for m in mods if m is not h]
+        if others:
+            o = rng.choice(others)
+            ren[o["name"]] = f"{ren[h['name']]}_{rng.randrange(0, len(h['rects']) + 1)}"
+    if len(set(ren.values())) == len(ren):
+        rename_case(case, ren)
+    names = [m["name"] for m in mods]
+    # ---- areas of the soft modules (Module.area() need not be the area of the rectangle)
+    for m in mods:
+        if not m["hard"]:
+            a = sum(c10.rarea(r) for r in m["rects"])
+            m["area"] = a if rng.random() < 0.7 else rng.choice([F(1), F(3, 2), F(3), F(5, 4), F(2), F(1, 2)])
+    # ---- nets
+    edges = []
+    for _ in range(rng.choice([0, 1, 2, 3])):
+        k = rng.choice([2, 2, 3, 3, 4, 1])
+        if len(names) >= k:
+            edges.append(rng.sample(names, k))
+    case["edges"] = edges
+    case["alpha"] = rng.choice([F(1), F(1), F(1, 2), F(0), F(3, 4)])
+    return case
+
+
+def _mod(name, kind, rects, center=None, flip=False):
+    from harness.props import c10
+    ta = sum(c10.rarea(r) for r in rects)
+    if center is None:
+        center = [sum(core.frac(r["cx"]) * c10.rarea(r) for r in rects) / ta,
+                  sum(core.frac(r["cy"]) * c10.rarea(r) for r in rects) / ta]
+    return {"name": name, "hard": kind != "soft", "fixed": kind == "fixed", "flip": flip, "center": list(center),
+            "rects": rects}
+
+
+def gen_ties(rng):
+    """Ratios exactly at the threshold or at 1 - threshold: k x 1 strip of 2x2 (or 2x1) ground cells, optionally a
+    fixed strip at one end, soft squares / hard rectangles placed so that their share of a cell is exactly
+    1/4, 1/2, 3/4, 1 or 0, thresholds 1/2, 3/4, 1 (and 7/8, 1/4 as controls)."""
+    from harness.props import c10
+    ncell = rng.choice([1, 2, 2, 3])
+    ch = F(rng.choice([2, 2, 1]))
+    fixed_side = rng.choice([None, "E", "E", "W"])
+    x = F(0)
+    boxes, owner = [], {}
+    if fixed_side == "W":
+        boxes.append((x, F(0), x + 1, ch))
+        owner[0] = "F0"
+        x += 1
+    for _ in range(ncell):
+        boxes.append((x, F(0), x + 2, ch))
+        x += 2
+    if fixed_side == "E":
+        boxes.append((x, F(0), x + 1, ch))
+        owner[len(boxes) - 1] = "F0"
+        x += 1
+    W, H = x, ch
+    mods = []
+    if fixed_side:
+        i = next(iter(owner))
+        mods.append(_mod("F0", "fixed", [c10.box_rect(boxes[i], fixed=True, hard=True)]))
+    ground = [b for i, b in enumerate(boxes) if i not in owner]
+    for s in range(rng.choice([1, 2, 2, 3])):
+        b = rng.choice(ground)
+        side = rng.choice([F(1), F(1), F(1), F(2), F(1, 2)])
+        pos = rng.choice(["centre", "centre", "corner", "edge"])
+        cxm, cym = (b[0] + b[2]) / 2, (b[1] + b[3]) / 2
+        if pos == "corner":
+            cxm, cym = b[0] + side / 2, b[1] + min(side, ch) / 2
+        elif pos == "edge":
+            cxm = b[2]                                   # straddles the border with the next cell / the fixed strip
+        hh = min(side, ch)
+        mods.append(_mod(f"S{s}", "soft", [c10.rect_d(cxm, cym, side, hh)], center=[cxm, cym]))
+    if rng.random() < 0.4:
+        b = rng.choice(ground)
+        w, h = rng.choice([(F(1), F(1)), (F(2), F(1)), (F(1), ch)])
+        r0 = c10.rect_d(b[0] + w / 2, b[1] + h / 2, w, h, hard=True, loc="TRUNK")
+        rs = [r0]
+        if rng.random() < 0.5 and b[0] + w + F(1, 2) <= W:
+            rs.append(c10.rect_d(b[0] + w + F(1, 4), b[1] + h / 2, F(1, 2), h / 2, hard=True, loc="EAST"))
+        mods.append(_mod("H0", "hard", rs, flip=rng.random() < 0.5))
+    rng.shuffle(mods)
+    t = rng.choice([F(3, 4), F(3, 4), F(1, 2), F(1, 2), F(1), F(1), F(7, 8), F(1, 4)])
+    stored = rng.random() < 0.4
+    cells = []
+    for i, b in enumerate(boxes):
+        rect = c10.box_rect(b, fixed=(i in owner), hard=(i in owner))
+        al = []
+        if i in owner:
+            al = [[owner[i], F(1)]]
+        else:
+            for m in mods:
+                if m["fixed"]:
+                    continue
+                if stored:
+                    if rng.random() < 0.6:
+                        al.append([m["name"], rng.choice([1 - t, 1 - t, t, F(0), F(1), F(1, 4), F(1, 2)])])
+                else:
+                    from harness.props import alloc_common as ac
+                    ov = sum(ac.ovl(c10.rbox(rect), c10.rbox(r)) for r in m["rects"]) / c10.rarea(rect)
+                    if ov > 0:
+                        al.append([m["name"], ov])
+        cells.append({"rect": rect, "alloc": al, "depth": 0})
+    if rng.random() < 0.5:
+        rng.shuffle(cells)
+    return {"kind": "system", "style": "stored" if stored else "initial", "die": [W, H], "cells": cells, "mods": mods,
+            "t": t, "eps": F(1, 2 ** 20), "aeps": F(1, 2 ** 20)}
+
+
+def gen_crowd(rng):
+    """Soft modules next to a fixed module's cell, everything attracted to the fixed module (alpha = 1)."""
+    case = gen_ties(rng)
+    case["style"] = "crowd-" + case["style"]
+    return case
+
+
+def run_system(case, solve_hook=None):
+    """optimize_allocation on the case; the solver call is replaced by the capture (or by `solve_hook`)."""
+    from harness.props import c10
+    from harness.props import alloc_common as ac
+    from frame.geometry.geometry import Rectangle
+    from tools.glbfloor import optimization as opt
+    Rectangle.undefine_epsilon()
+    Rectangle.set_epsilon(float(case["eps"]), float(case["aeps"]))
+    rec = {}
+    orig = opt.solve_and_extract_solution
+
+    def recorder(model, die, cells, threshold, *a, **kw):
+        rec["called"] = True
+        if solve_hook is not None:
+            rec["hook"] = solve_hook(model, die, cells, threshold, orig)
+        else:
+            rec["cap"] = capture(model, len(cells))
+        try:
+            model.gekko.cleanup()
+        except Exception:
+            pass
+        return die, None, {}, ([], [])
+
+    opt.solve_and_extract_solution = recorder
+    try:
+        mods = [c10.mk_module(d) for d in case["mods"]]
+        for m, d in zip(mods, case["mods"]):
+            if not d["hard"] and d.get("area") is not None:
+                m._area_regions = {"_": float(d["area"])}
+                m._total_area = float(d["area"])
+        die = c10.stub_die(mods, *case["die"])
+        by = {m.name: m for m in mods}
+        die.netlist.edges = [_Edge([by[n] for n in e]) for e in case.get("edges", [])]
+        try:
+            alloc = ac.build_alloc(case["cells"])
+        except (AssertionError, ZeroDivisionError):
+            return {"status": "bad-allocation"}
+        areas = {m.name: m.area() for m in mods}
+        pow32 = {}
+        for m in mods:
+            if not m.is_hard and m.area() > 0:
+                pow32[repr(m.area())] = [m.area(), m.area() ** (3 / 2)]
+        mods0 = [c10.module_obs(m) for m in mods]
+        disp = {m.name: 0.0 for m in mods}
+        try:
+            opt.optimize_allocation(die, alloc, disp, float(case["t"]), float(case.get("alpha", 0.5)),
+                                    lambda x, y: x ** 2 + y ** 2)
+        except (AssertionError, ZeroDivisionError, KeyError) as e:
+            if rec.get("called"):
+                raise
+            return {"status": "raised", "err": type(e).__name__, "cells": ac.alloc_obs(alloc)["cells"], "areas": areas,
+                    "pow32": list(pow32.values()), "mods0": mods0}
+        out = {"status": "built", "cells": ac.alloc_obs(alloc)["cells"], "areas": areas, "pow32": list(pow32.values()),
+               "mods0": mods0}
+        if solve_hook is not None:
+            out["hook"] = rec.get("hook")
+        else:
+            out["cap"] = rec["cap"]
+        return out
+    finally:
+        opt.solve_and_extract_solution = orig
+        Rectangle.undefine_epsilon()
+
+
+class _Edge:
+    def __init__(self, modules, weight=1.0):
+        self.modules, self.weight = modules, weight
+
+
+def gdie(die):
+    W, H = core.frac(die[0]), core.frac(die[1])
+    return f'(mkRect {gq(W / 2)} {gq(H / 2)} {gq(W)} {gq(H)} false false "_"%string NOPOLY)'
+
+
+def gen_call(eps, t, die, mods, areas, pow32, cells, edges):
+    from harness.props import c10
+    from harness.props import alloc_common as ac
+    P = glist([f"({gq(a)}, {gq(p)})" for a, p in pow32])
+    A = glist([f"({gstr(m['name'])}, {gq(areas[m['name']])})" for m in mods if not m["hard"] and m["name"] in areas])
+    E = glist([glist([gstr(n) for n in e]) for e in edges])
+    return (f"(gen_system (pow32_of {P}) {gq(eps)} {gq(t)} {gdie(die)} {c10.gmodules(mods)} {A} "
+            f"{ac.gcells(cells)} {E})")
+
+
+def scale_of_system(can):
+    """Magnitude of the largest equation: sum of the absolute coefficients of both sides, expanded."""
+    s = F(1)
+    for rel, l, r in can["cons"]:
+        try:
+            v = sum(abs(q) for q in poly(l).values()) + sum(abs(q) for q in poly(r).values())
+        except Unparsable:
+            continue
+        s = max(s, v)
+    return s
+
+
+def system_expr(call, can):
+    V, C = gsystem(can)
+    return f"system_cmp {CLOSE_K} {gq(scale_of_system(can))} {call} {V} {C}"
+
+
+def to_coq_system(case, obs):
+    from harness.props import alloc_common as ac
+    if obs["status"] == "bad-allocation":
+        return f"match mk_allocation {gq(case['aeps'])} {ac.gcells(case['cells'])} with None => true | Some _ => false end"
+    call = gen_call(case["eps"], case["t"], case["die"], case["mods"], obs["areas"], obs["pow32"], obs["cells"],
+                    case.get("edges", []))
+    if obs["status"] == "raised":
+        return f"raises_cmp {call}"
+    can = canonical(obs["cap"])
+    return system_expr(call, can)
